@@ -32,14 +32,14 @@ func init() {
 }
 
 type binScenario struct {
-	Name   string
-	Tables map[string]string // file name -> initial content
-	SQL    string
-	Prog   []sched.Op // the same program in the vocabulary of FileProtocol (for trace validation); nil = not modelled
-	Args   []string   // extra args
+	Name     string
+	Tables   map[string]string // file name -> initial content
+	SQL      string
+	Prog     []sched.Op // the same program in the vocabulary of FileProtocol (for trace validation); nil = not modelled
+	Args     []string   // extra args
 	ReadOnly bool
-	Holder bool // a competing process holds the lock of f1 (-> lock timeout path)
-	Out    string // --out file name
+	Holder   bool   // a competing process holds the lock of f1 (-> lock timeout path)
+	Out      string // --out file name
 }
 
 type pointRec struct {
